@@ -121,6 +121,9 @@ pub struct Scenario {
     /// state sets as ordered lists (the order is part of the request)
     pub sets: Vec<Vec<(String, String, OwnedEventId)>>,
     pub chains: Vec<Vec<OwnedEventId>>,
+    /// generator bookkeeping, not part of the request: events that failed auth on creation but were
+    /// kept in the DAG by a faulty server
+    pub rejected: Vec<OwnedEventId>,
 }
 
 fn ev_json(e: &Ev) -> Value {
@@ -191,7 +194,7 @@ impl Scenario {
         for c in a.get(2)?.as_array()? {
             chains.push(strs(c)?);
         }
-        Some(Scenario { ver, events, sets, chains })
+        Some(Scenario { ver, events, sets, chains, rejected: vec![] })
     }
 
     pub fn store(&self) -> Store {
@@ -516,6 +519,7 @@ pub struct Room {
     pub clock: u64,
     pub used_ids: HashSet<String>,
     pub stats: BTreeMap<&'static str, usize>,
+    pub rejected: Vec<OwnedEventId>,
 }
 
 pub const USERS: [&str; 6] = ["@alice:s0", "@bob:s1", "@carol:s2", "@dave:s0", "@eve:s1", "@zed:s2"];
@@ -647,6 +651,7 @@ impl Room {
                 return false;
             }
             *self.stats.entry("rejected-but-kept").or_default() += 1;
+            self.rejected.push(ev.id.clone());
         }
         let mut after = before;
         after.insert((ty.to_owned(), state_key.to_owned()), ev.id.clone());
@@ -739,6 +744,7 @@ pub fn gen_room(rng: &mut Rng, big: bool) -> (Scenario, BTreeMap<&'static str, u
         clock: 10,
         used_ids: HashSet::new(),
         stats: BTreeMap::new(),
+        rejected: Vec::new(),
     };
     let _ = k;
     let alice = USERS[0];
@@ -778,7 +784,7 @@ pub fn gen_room(rng: &mut Rng, big: bool) -> (Scenario, BTreeMap<&'static str, u
             .rev()
             .find(|e| e.ty == TimelineEventType::RoomPowerLevels && room.views[s].iter().any(|&i| room.events[i].id == e.id))
             .map(|e| e.content_val.clone());
-        match rng.below(16) {
+        match rng.below(19) {
             0..=2 => {
                 let t = format!("t{}", rng.below(5));
                 room.add(rng, s, u, "m.room.topic", "", json!({"topic": t}), None);
@@ -832,6 +838,35 @@ pub fn gen_room(rng: &mut Rng, big: bool) -> (Scenario, BTreeMap<&'static str, u
                     room.add(rng, s, u, "m.room.topic", "", json!({"topic": "x"}), None);
                 }
             }
+            15 | 16 => {
+                // a ban / kick racing a join: alice removes `target` on her server while `target`
+                // (re)joins on its own server, neither having seen the other event; sometimes with
+                // the same timestamp
+                let target = *rng.pick(&["@bob:s1", "@carol:s2", "@eve:s1", "@zed:s2"]);
+                let m = *rng.pick(&["ban", "ban", "leave"]);
+                let ban_first = rng.chance(1, 2);
+                let before = room.events.len();
+                if ban_first {
+                    room.add(rng, 0, alice, "m.room.member", target, member(m), None);
+                }
+                room.add(rng, server_of(target), target, "m.room.member", target, member("join"), None);
+                if !ban_first {
+                    room.add(rng, 0, alice, "m.room.member", target, member(m), None);
+                }
+                if room.events.len() == before + 2 {
+                    *room.stats.entry("race-steps").or_default() += 1;
+                    if rng.chance(1, 3) {
+                        // tie the timestamps of the two racing events
+                        let ts = room.events[before].ts;
+                        let last = room.events.len() - 1;
+                        let mut e = (*room.events[last]).clone();
+                        e.ts = ts;
+                        let e = Arc::new(e);
+                        room.store.insert(e.id.clone(), e.clone());
+                        room.events[last] = e;
+                    }
+                }
+            }
             _ => room.gossip(rng, true),
         }
         if rng.chance(1, 3) {
@@ -872,7 +907,8 @@ pub fn gen_room(rng: &mut Rng, big: bool) -> (Scenario, BTreeMap<&'static str, u
     let mut events = room.events.clone();
     rng.shuffle(&mut events);
     *room.stats.entry("events").or_default() += events.len();
-    (Scenario { ver, events, sets, chains }, room.stats)
+    let rejected = room.rejected.clone();
+    (Scenario { ver, events, sets, chains, rejected }, room.stats)
 }
 
 /// A history shaped so that the auth difference contains an old power event whose key is
@@ -893,6 +929,7 @@ pub fn gen_overlay(rng: &mut Rng) -> Scenario {
         clock: 10,
         used_ids: HashSet::new(),
         stats: BTreeMap::new(),
+        rejected: Vec::new(),
     };
     let alice = USERS[0];
     let create = if ver >= 11 { json!({"room_version": ver.to_string()}) } else { json!({"creator": alice, "room_version": ver.to_string()}) };
@@ -944,7 +981,8 @@ pub fn gen_overlay(rng: &mut Rng) -> Scenario {
     }
     let mut events = room.events.clone();
     rng.shuffle(&mut events);
-    Scenario { ver, events, sets, chains }
+    let rejected = room.rejected.clone();
+    Scenario { ver, events, sets, chains, rejected }
 }
 
 /// The F4 witness of DESIGN §7: two conflicting topics, one sent before the only power-levels
@@ -973,7 +1011,7 @@ pub fn f4_witness(ver: u32) -> Scenario {
         .iter()
         .map(|s| auth_chain(&store, s.iter().map(|x| x.2.clone())).into_iter().collect())
         .collect();
-    Scenario { ver, events, sets: vec![s1, s2], chains }
+    Scenario { ver, events, sets: vec![s1, s2], chains, rejected: vec![] }
 }
 
 /// Known finding F4 (DESIGN §7): `mainline_sort` gives an event without mainline ancestor the depth
@@ -1033,4 +1071,92 @@ pub fn f4_affected(sc: &Scenario) -> bool {
     let roots: BTreeSet<Option<OwnedEventId>> =
         interesting.iter().filter(|id| store.contains_key(*id)).map(root).collect();
     roots.len() >= 2
+}
+
+/// The full conflicted set as `resolve` will see it: the values of conflicted keys plus the auth
+/// difference, known events only.
+pub fn full_conflicted(sc: &Scenario) -> BTreeSet<OwnedEventId> {
+    let store = sc.store();
+    let n = sc.sets.len();
+    let mut occ: HashMap<(String, String, OwnedEventId), usize> = HashMap::new();
+    for s in &sc.sets {
+        for e in s {
+            *occ.entry(e.clone()).or_default() += 1;
+        }
+    }
+    let mut out = BTreeSet::new();
+    for ((_, _, id), c) in &occ {
+        if *c != n {
+            out.insert(id.clone());
+        }
+    }
+    let mut cnt: HashMap<OwnedEventId, usize> = HashMap::new();
+    for c in &sc.chains {
+        for id in c.iter().collect::<BTreeSet<_>>() {
+            *cnt.entry(id.clone()).or_default() += 1;
+        }
+    }
+    for (id, c) in cnt {
+        if c < sc.chains.len() {
+            out.insert(id);
+        }
+    }
+    out.retain(|id| store.contains_key(id));
+    out
+}
+
+/// Shape flags of a scenario, appended to its class label so that the evidence's input distribution
+/// shows what the generated rooms exercise. Computed from the request alone (plus the generator's
+/// record of rejected events):
+///   `B` a ban or kick of a user and that user's own join are both in the full conflicted set
+///   `P` an event of the full conflicted set has no power-levels event among its auth events
+///   `R` an event that failed auth on creation (kept by a faulty server) is in an auth chain
+///   `T` two events of the full conflicted set have the same origin_server_ts
+///   `3` three or more state sets
+///   `0` the full conflicted set is empty (no conflict)
+pub fn shape(sc: &Scenario) -> String {
+    let store = sc.store();
+    let fc = full_conflicted(sc);
+    let evs: Vec<&AEv> = fc.iter().filter_map(|i| store.get(i)).collect();
+    let membership =
+        |e: &Ev| e.content_val.get("membership").and_then(|m| m.as_str()).unwrap_or("").to_owned();
+    let is_member = |e: &Ev| e.ty == TimelineEventType::RoomMember;
+    let is_pl = |e: &Ev| e.ty == TimelineEventType::RoomPowerLevels && e.state_key.as_deref() == Some("");
+    let mut flags = String::new();
+    let race = evs.iter().any(|a| {
+        is_member(a)
+            && matches!(membership(a).as_str(), "ban" | "leave")
+            && a.state_key.as_deref() != Some(a.sender.as_str())
+            && evs.iter().any(|b| {
+                is_member(b)
+                    && membership(b) == "join"
+                    && b.state_key == a.state_key
+                    && b.state_key.as_deref() == Some(b.sender.as_str())
+            })
+    });
+    if race {
+        flags.push_str("+B");
+    }
+    let pre_pl = evs.iter().any(|e| {
+        e.ty != TimelineEventType::RoomCreate
+            && !e.auth.iter().filter_map(|a| store.get(a)).any(|a| is_pl(a))
+    });
+    if pre_pl {
+        flags.push_str("+P");
+    }
+    if sc.rejected.iter().any(|r| sc.chains.iter().any(|c| c.contains(r))) {
+        flags.push_str("+R");
+    }
+    let mut ts: Vec<u64> = evs.iter().map(|e| u64::from(e.ts.0)).collect();
+    ts.sort();
+    if ts.windows(2).any(|w| w[0] == w[1]) {
+        flags.push_str("+T");
+    }
+    if sc.sets.len() >= 3 {
+        flags.push_str("+3");
+    }
+    if fc.is_empty() {
+        flags.push_str("+0");
+    }
+    flags
 }
